@@ -277,8 +277,97 @@ def job_too_big(jc):
     jc.expect_reached("ok", "ValueError")
 
 
+# ---------------------------------------------------------------- PNG.read_from over file histories
+
+
+class _Files:
+    """A two-file file system whose contents change between reads (the history is the input)."""
+
+    data = {}
+
+    class Path:
+        def __init__(self, p):
+            self.p = p if isinstance(p, str) else p.p
+
+        def __fspath__(self):
+            return self.p
+
+        def __str__(self):
+            return self.p
+
+        def read_bytes(self):
+            return _Files.data[self.p]
+
+        def stat(self):
+            import types
+
+            return types.SimpleNamespace(st_size=len(_Files.data[self.p]), st_mtime=0.0, st_mtime_ns=0)
+
+        def __eq__(self, o):
+            return isinstance(o, _Files.Path) and o.p == self.p
+
+        def __hash__(self):
+            return hash(self.p)
+
+
+def _png(tag, n):
+    from nanoemoji.png import PNG
+
+    return PNG.SIGNATURE + bytes([tag]) * n
+
+
+def _history(n1, n2, n3):
+    """write a; read a; rewrite a; read a; write b (same bytes as the first a); read b; read a"""
+    from nanoemoji.png import PNG
+    from nanoemoji import png as PNGMOD
+
+    saved = PNGMOD.Path
+    PNGMOD.Path = _Files.Path
+    try:
+        _Files.data = {"/s/a.png": _png(1, n1)}
+        got = [bytes(PNG.read_from("/s/a.png"))]
+        _Files.data["/s/a.png"] = _png(2, n2)
+        got.append(bytes(PNG.read_from(_Files.Path("/s/a.png"))))
+        _Files.data["/s/b.png"] = _png(3, n3)
+        got.append(bytes(PNG.read_from("/s/b.png")))
+        got.append(bytes(PNG.read_from("/s/a.png")))
+    finally:
+        PNGMOD.Path = saved
+    want = [_png(1, n1), _png(2, n2), _png(3, n3), _png(2, n2)]
+    return got, want
+
+
+def replay_read_from(inp):
+    got, want = _history(int(inp["n1"]), int(inp["n2"]), int(inp["n3"]))
+    if got != want:
+        return {"reads": [g[8:].hex() for g in got], "file contents at the time of each read": [w[8:].hex() for w in want]}
+    return None
+
+
+def job_read_from(jc):
+    """PNG.read_from returns the bytes the file holds at the time of the call, for every rewrite
+    history of two files with payload lengths 1..4 (lengths are solver variables, concretised by forking)."""
+    from nanoemoji.png import PNG
+
+    jc.encode(PNG.read_from, PNG.__new__)
+    inp = {n: core.SymNum(z3.Int(n)) for n in ("n1", "n2", "n3")}
+
+    def body():
+        ns = [core.integer(n, 1, 4).concretize() for n in ("n1", "n2", "n3")]
+        return _history(*ns)
+
+    results = jc.explore(body, max_paths=200)
+    for r in results:
+        if not jc.no_exception(r, inp, replay_read_from, "C14:read_from:raises"):
+            continue
+        got, want = r.value
+        jc.reach(r, "ok")
+        jc.prove(r, z3.BoolVal(got == want), "every read returns the file's current bytes (no stale image after a rewrite)", inp, replay_read_from, key="C14:read_from:stale")
+    jc.expect_reached("ok")
+
+
 def jobs(tier):
-    js = []
+    js = [Job("png_read_from[histories]", job_read_from)]
     metric_sets = [(1024, 1200), (1000, 1000), (2048, 2400), (1024, 1024)]
     hs = [16, 64, 106, 127, 128, 136, 255] if tier == "quick" else list(range(8, 256, 1))
     for upem, F in metric_sets:
@@ -291,7 +380,7 @@ def jobs(tier):
     js.append(Job("raise_if_too_big_for_cbdt", job_too_big))
     from harness import C07_cbdt
 
-    js += C07_cbdt.jobs(tier, prop="C14")
+    js += C07_cbdt.jobs(tier, prop="C14") + C07_cbdt.copy_jobs(tier)  # glue step: bitmaps follow their glyph through resharding
     return js
 
 
